@@ -1,0 +1,8 @@
+//go:build verif
+
+package aztec
+
+import "github.com/boombuler/barcode/utils"
+
+// VerifC17Field exposes getGF: the field used for a given word size (nil if none).
+func VerifC17Field(wordSize int) *utils.GaloisField { return getGF(wordSize) }
